@@ -1,7 +1,142 @@
+(* C01 — Contract chain state is a function of the best chain.
+   Statements only; every proof is [exact lemma].
+
+   Vocabulary (Chain.v).  A [block] carries, per contract of the host, at most one change:
+   confirmed / revised (old -> new revision number) / successful / failed / v2 renewed.  A history
+   is a list of [item]s:  [HBatch n apps] = one Store.UpdateChainState transaction that disconnects
+   the n tip blocks and then connects the blocks apps (reverts first, then per applied block
+   ApplyContracts and RejectContracts(height - buffer) when height >= buffer — the order of
+   contracts.Manager.UpdateChainState);  [HRescan] = ResetChainState followed by processing the
+   whole best chain again from its first block;  [HOp o] = any other store operation (add, revise,
+   renew, fund/debit account ...), which may also fail.  [wf_hist] is the consensus discipline:
+   every connected block extends the current tip with changes that are legal there (a contract is
+   confirmed at most once on a chain, revised only between confirmation and resolution starting
+   from the revision the chain knows, resolved at most once; only contracts known to the store are
+   mentioned).  [best_chain l []] is the chain the history ends on.
+   [spec1 buffer neg id K] / [spec2 ...] are the chain columns (status, formation
+   confirmed / confirmation index, confirmed revision number, resolution height / index) that
+   processing ONLY the blocks of K, in order, on a store that never saw a block gives contract id
+   with negotiation height neg (rejected once a processed height exceeds neg + buffer while
+   unconfirmed).  [heqv1]/[heqv2]: equal, except that an unconfirmed contract may be pending on
+   one side and rejected on the other (the one-way rejection). *)
 From HostdBase Require Import Base.
-From HostdContracts Require Import Model Proofs.
-Theorem c01_placeholder : forall s, ops_status1 s s = [].
-Proof. exact placeholder_status. Qed.
-Print Assumptions c01_placeholder.
-Example c01_nonvacuous : ops_status1 Active Active = [].
-Proof. vm_compute; reflexivity. Qed.
+From HostdContracts Require Import Model Lib Inv InvOps Chain PerContract Proj Rows SpecLemmas Steps
+  Plain Rescan Hist ProofsC01 Wfb.
+Local Open Scope N_scope.
+
+(* Every well-formed history — any interleaving of batches of reverts and applies, rescans and other
+   operations, of any length over any number of v1 and v2 contracts — runs without a single chain
+   update returning an error or panicking, and afterwards every contract's chain columns are what
+   the best chain alone gives. *)
+Theorem c01_function_of_best_chain : forall (buffer : N) (l : list item),
+  wf_hist buffer l (init, []) ->
+  exists s, hrun buffer l (init, []) = ROk (s, best_chain l []) /\
+            agrees_with_chain buffer s (best_chain l []).
+Proof. exact function_of_best_chain. Qed.
+Print Assumptions c01_function_of_best_chain.
+
+(* The same continues to hold from every reachable store. *)
+Theorem c01_function_of_best_chain_continued : forall (buffer : N) (s : state) (K : list block) (l : list item),
+  reachable buffer s K -> wf_hist buffer l (s, K) ->
+  exists s', hrun buffer l (s, K) = ROk (s', best_chain l K) /\ reachable buffer s' (best_chain l K).
+Proof. exact reachable_continue. Qed.
+Print Assumptions c01_function_of_best_chain_continued.
+
+Theorem c01_reachable_agrees_with_chain : forall (buffer : N) (s : state) (K : list block),
+  reachable buffer s K -> agrees_with_chain buffer s K.
+Proof. exact reachable_agrees. Qed.
+Print Assumptions c01_reachable_agrees_with_chain.
+
+(* Differential form: take ANY store s0 that holds the same contracts (same ids and negotiation
+   heights) and has not processed a block yet; processing only the blocks of the final best chain,
+   in order, one per update, is itself well-formed, succeeds, and ends in equivalent rows. *)
+Theorem c01_same_as_replay_of_best_chain : forall (buffer : N) (l : list item) (s0 : state),
+  wf_hist buffer l (init, []) ->
+  exists s, hrun buffer l (init, []) = ROk (s, best_chain l []) /\
+  (blank_store buffer s0 -> same_contracts s s0 ->
+   wf_hist buffer (linear (best_chain l [])) (s0, []) /\
+   exists s', hrun buffer (linear (best_chain l [])) (s0, []) = ROk (s', best_chain l []) /\
+              rows_equivalent s s').
+Proof. exact replay_agrees. Qed.
+Print Assumptions c01_same_as_replay_of_best_chain.
+
+(* such stores exist: anything reached from the empty store by non-chain operations only *)
+Theorem c01_blank_stores : forall (buffer : N) (ops : list op),
+  forallb is_plain ops = true ->
+  blank_store buffer (fold_left (fun s o => exec_plain o s) ops init).
+Proof. exact blank_after_plain. Qed.
+Print Assumptions c01_blank_stores.
+
+(* Disconnecting a block undoes what connecting it did (apart from the one-way rejection). *)
+Theorem c01_disconnect_undoes_connect : forall (buffer : N) (s : state) (K : list block) (b : block),
+  reachable buffer s K -> bvalid buffer (negof1 s) (negof2 s) K b ->
+  exists s'', hrun buffer [HBatch 0 [b]; HBatch 1 []] (s, K) = ROk (s'', K) /\
+              same_contracts s s'' /\ rows_equivalent s s''.
+Proof. exact reachable_disconnect_undoes_connect. Qed.
+Print Assumptions c01_disconnect_undoes_connect.
+
+(* ... column by column, and exactly unless a rejected contract was being confirmed *)
+Theorem c01_inverse_v1 : forall (h : N) (e : pev1) (x : ch1),
+  cinv1 x -> valid1 e x ->
+  heqv1 (rspec_ev1 e (spec_ev1 h e x)) x /\ (h_st x <> Rejected -> rspec_ev1 e (spec_ev1 h e x) = x).
+Proof. exact inverse_v1. Qed.
+Print Assumptions c01_inverse_v1.
+
+Theorem c01_inverse_v2 : forall (i : idx) (e : pev2) (x : ch2),
+  cinv2 x -> valid2 e x ->
+  heqv2 (rspec_ev2 e (spec_ev2 i e x)) x /\ (g_st x <> R2 -> rspec_ev2 e (spec_ev2 i e x) = x).
+Proof. exact inverse_v2. Qed.
+Print Assumptions c01_inverse_v2.
+
+(* A full rescan after a chain-state reset never fails and ends where it started. *)
+Theorem c01_rescan : forall (buffer : N) (s : state) (K : list block),
+  J buffer s K ->
+  exists s', hexec buffer (s, K) HRescan = ROk (s', K) /\ J buffer s' K /\
+             (forall id, negof1 s' id = negof1 s id) /\ (forall id, negof2 s' id = negof2 s id).
+Proof. exact rescan_J. Qed.
+Print Assumptions c01_rescan.
+
+Theorem c01_reachable_is_J : forall (buffer : N) (s : state) (K : list block),
+  reachable buffer s K -> J buffer s K.
+Proof. exact reachable_is_J. Qed.
+Print Assumptions c01_reachable_is_J.
+
+(* Rejection.  (a) In every reachable store a contract is pending or rejected exactly when it is
+   unconfirmed (so a confirmed contract is never rejected, and a rejected one becomes active when
+   its formation is connected later — c01_function_of_best_chain). *)
+Theorem c01_rejected_iff_unconfirmed : forall (buffer : N) (s : state) (K : list block),
+  reachable buffer s K ->
+  (forall id c, find1 id (cs1 s) = Some c -> (s1 c = Rejected \/ s1 c = Pending <-> formed c = false)) /\
+  (forall id c, find2 id (cs2 s) = Some c -> (s2 c = R2 \/ s2 c = P2 <-> conf2 c = None)).
+Proof. exact reachable_rejected_is_unconfirmed. Qed.
+Print Assumptions c01_rejected_iff_unconfirmed.
+
+(* (b) After any chain update (from any state the operations can reach) whose last connected
+   block passed the height hm = height - buffer to RejectContracts, every unconfirmed contract
+   with negotiation height < hm is rejected. *)
+Theorem c01_rejection_complete_v1 : forall (l : list op) revs apps i ch hm s',
+  exec (Chain revs (apps ++ [(i, ch, Some hm)])) (run init step l) = ROk s' ->
+  forall id c, find1 id (cs1 s') = Some c -> formed c = false -> neg1 c <? hm = true -> s1 c = Rejected.
+Proof. exact rejection_complete_v1_run. Qed.
+Print Assumptions c01_rejection_complete_v1.
+
+Theorem c01_rejection_complete_v2 : forall (l : list op) revs apps i ch hm s',
+  exec (Chain revs (apps ++ [(i, ch, Some hm)])) (run init step l) = ROk s' ->
+  forall id c, find2 id (cs2 s') = Some c -> conf2 c = None -> neg2 c <? hm = true -> s2 c = R2.
+Proof. exact rejection_complete_v2_run. Qed.
+Print Assumptions c01_rejection_complete_v2.
+
+(* non-vacuity: a well-formed history (checked by the executable, sound checker wf_histb) with a
+   v1 and a v2 contract, formation, revisions, a storage proof and a renewal, a two-block reorg that
+   disconnects the resolutions, a replacement branch with a failed resolution, a rescan, and a late
+   contract that gets rejected; it runs, and the final statuses are as expected. *)
+Example c01_nonvacuous :
+  wf_hist 1 demo (init, []) /\
+  match hrun 1 demo (init, []) with
+  | ROk (s, K) => map (fun c => (s1 c, formed c, confRev c, resH c)) (cs1 s)
+                  = [(Failed, true, 5, None); (Rejected, false, 0, None)]
+                  /\ map (fun c => (s2 c, elem2 c)) (cs2 s) = [(A2, Some 2)]
+                  /\ length K = 4%nat
+  | _ => False
+  end.
+Proof. exact demo_ok. Qed.
